@@ -1660,6 +1660,10 @@ func (ex *Exec) alloc(st *State, v *Val, t types.Type) *Val {
 	if v != nil && v.Sh != nil {
 		ex.writeLoc(st, l, v)
 	}
+	// the dynamic type of an allocated object (for isType on interface values): ghost dynType, when declared
+	if g, ok := ex.eng.cs.Ghosts["dynType"]; ok {
+		ex.writeLoc(st, ex.ghostLoc(g, []*Val{{S: ref}}), ex.intVal(fmt.Sprint(typeID(pt)), types.Typ[types.Int]))
+	}
 	if ex.eng.ownedTypes[typeKey(t)] {
 		// whoever allocates an object owns it
 		if g, ok := ex.eng.cs.Ghosts["owns"]; ok {
